@@ -282,8 +282,41 @@ fn rename_all(n: &mut RefNode, suffix: &str, renamed: &mut usize) {
     }
 }
 
+/// give `n` another value for one of its attributes (an enum item valid in the version, or a free string); false if the element
+/// type has no attribute that can be varied safely. Identifiable elements are left alone (their name must change as well).
+fn vary_attribute(rng: &mut Rng, n: &mut RefNode, et: ElementType, version: AutosarVersion, counter: usize) -> bool {
+    use autosar_data_specification::CharacterDataSpec;
+    if matches!(n.items.first(), Some(RefItem::Elem(sn)) if sn.name == "SHORT-NAME") {
+        return false;
+    }
+    let mut cands: Vec<(String, String)> = Vec::new();
+    for (name, spec, _required) in et.attribute_spec_iter() {
+        let Some(aspec) = et.find_attribute_spec(name) else { continue };
+        if aspec.version & version as u32 == 0 || name == AttributeName::Dest {
+            continue;
+        }
+        let current = n.attrs.iter().find(|(k, _)| k == name.to_str()).map(|(_, v)| v.clone());
+        match spec {
+            CharacterDataSpec::Enum { items } => {
+                let others: Vec<&str> = items.iter().filter(|(i, m)| m & version as u32 != 0 && Some(i.to_str()) != current.as_deref()).map(|(i, _)| i.to_str()).collect();
+                if let Some(o) = rng.pick_opt(&others) {
+                    cands.push((name.to_str().to_string(), (*o).to_string()));
+                }
+            }
+            CharacterDataSpec::String { max_length, .. } if max_length.is_none_or(|m| m > 12) => cands.push((name.to_str().to_string(), format!("v{counter}"))),
+            _ => {}
+        }
+    }
+    let Some((k, v)) = rng.pick_opt(&cands).cloned() else { return false };
+    match n.attrs.iter_mut().find(|(name, _)| *name == k) {
+        Some(slot) => slot.1 = v,
+        None => n.attrs.push((k, v)),
+    }
+    true
+}
+
 /// multiply children that may occur any number of times (clone with renamed SHORT-NAMEs), at every level
-fn multiply(rng: &mut Rng, n: &mut RefNode, et: ElementType, version: AutosarVersion, counter: &mut usize, below_ordered: bool, stats: &mut (u64, u64)) {
+fn multiply(rng: &mut Rng, n: &mut RefNode, et: ElementType, version: AutosarVersion, counter: &mut usize, below_ordered: bool, stats: &mut (u64, u64, u64)) {
     let mode = et.content_mode();
     if !matches!(mode, ContentMode::Sequence | ContentMode::Choice | ContentMode::Bag) {
         return;
@@ -309,8 +342,18 @@ fn multiply(rng: &mut Rng, n: &mut RefNode, et: ElementType, version: AutosarVer
                 let mut d = c.clone();
                 *counter += 1;
                 let mut renamed = 0;
+                // every other clone of an element with attributes differs from its original in one attribute value only
+                let by_attribute = *counter % 2 == 0 && vary_attribute(rng, &mut d, cet, version, *counter);
+                if by_attribute {
+                    stats.2 += 1;
+                    group.push(d);
+                    continue;
+                }
                 rename_all(&mut d, &format!("_p{counter}"), &mut renamed);
-                if renamed > 0 {
+                if renamed > 0 || vary_attribute(rng, &mut d, cet, version, *counter) {
+                    if renamed == 0 {
+                        stats.2 += 1;
+                    }
                     group.push(d);
                 }
             }
@@ -415,7 +458,7 @@ pub fn run_deep(rep: &mut Report, tier: &str) {
                 }
             };
             let mut counter = 0;
-            let mut stats = (0u64, 0u64);
+            let mut stats = (0u64, 0u64, 0u64);
             multiply(&mut rng, &mut doc.root, ElementType::ROOT, version, &mut counter, false, &mut stats);
             if stats.0 == 0 {
                 sub.count("deep.discarded_nothing_multiplied", 1);
@@ -455,6 +498,7 @@ pub fn run_deep(rep: &mut Report, tier: &str) {
             sub.count("deep.cases", 1);
             sub.count("deep.sibling_groups_multiplied", stats.0);
             sub.count("deep.sibling_groups_below_ordered_elements", stats.1);
+            sub.count("deep.clones_that_differ_in_one_attribute_only", stats.2);
             let where_ = if stats.1 > 0 { "deep-with-groups-below-ordered-elements" } else { "deep" };
             if text_a != text_b {
                 sub.violation(
@@ -476,4 +520,5 @@ pub fn run_deep(rep: &mut Report, tier: &str) {
     });
     rep.require("deep.cases", (cases / 3) as u64);
     rep.require("deep.sibling_groups_below_ordered_elements", 20);
+    rep.require("deep.clones_that_differ_in_one_attribute_only", 50);
 }
